@@ -302,6 +302,19 @@ U(id="C04.lzip.member", props=["C04", "C06", "C03", "C02"], file="lzip/reader.rs
   contract_stubs=["LZMAReader with zeroed decoder storage (only its range decoder's inner reader is used)"],
   functions=[("src/lzip.rs", "parse", "LZIPHeader"), ("src/lzip.rs", "parse", "LZIPTrailer"), ("src/lzip/reader.rs", "finish_current_member")],
   contract="header: Ok <=> magic, version 1, valid dictionary byte; trailer fields little endian; member accepted <=> stored crc = crc_fn(yielded bytes), stored data size = yielded count, stored member size = 6+compressed+20")
+SIMD = ["SIMD (AVX2/SSE4.1/NEON) normalisation and inline-asm direct-bit decoding are outside Kani and Verus: trusted, checked only through the scalar / portable text and their documented semantics"]
+U(id="C14.extend", props=["C14", "C15"], file="lz/mod.rs", harnesses=["c14_extend_match"], stubs=[], kind="bounded", bound="window of 24 bytes (three machine words + tail), every position/length/distance/limit satisfying the call-site precondition",
+  functions=[("src/lz/mod.rs", "extend_match"), ("src/lz/mod.rs", "extend_match_safe")],
+  contract="optimization build (get_unchecked + read_unaligned): result = current_len + common-prefix length capped by the limit; all raw reads inside the buffer")
+U(id="C14.extend.safe", props=["C14"], file="lz/mod.rs", harnesses=["c14_extend_match"], stubs=[], features=NOOPT, kind="bounded", bound="as C14.extend, build without the optimization feature",
+  functions=[("src/lz/mod.rs", "extend_match"), ("src/lz/mod.rs", "extend_match_safe")],
+  contract="safe-slice variant satisfies the same contract as the raw-pointer variant => the two cfg twins are equal on the precondition")
+U(id="C15.aligned", props=["C15", "C13", "C14"], file="lz/aligned_memory.rs", harnesses=["c15_aligned_memory"], stubs=[], kind="bounded", bound="requested length 1..48 elements",
+  functions=[("src/lz/aligned_memory.rs", "new", "AlignedMemoryI32"), ("src/lz/aligned_memory.rs", "as_ref"), ("src/lz/aligned_memory.rs", "as_mut"), ("src/lz/aligned_memory.rs", "drop")],
+  contract="allocation >= requested, slice view = allocation, 64-byte aligned, zero-initialised, dealloc with the same layout")
+U(id="C14.norm", props=["C14", "C13"], file="lz/lz_encoder.rs", harnesses=["c14_normalize_scalar"], stubs=[], assumptions=SIMD,
+  functions=[("src/lz/lz_encoder.rs", "normalize_scalar")],
+  contract="forall elements and offsets >= 0: scalar result = max(p,off)-off = the documented SIMD semantics; independent of how the slice is split")
 
 # ---------------------------------------------------------------------------------------- quick-tier budget
 # Harnesses kept in the quick tier per unit; every other harness of the unit runs in the thorough tier only.
